@@ -347,6 +347,8 @@ def run(ctx):
     ctx.rule("R01.f", "bound comparisons are exact on the whole ordering domain (abstract interpretation against an oracle written from the property statement)", floor=5)
     ctx.rule("R01.h", "None is accepted iff allow_None and any other value iff it has the declared value type, for 15 built-in types (abstract interpretation of the full validator, type predicates as abstract inputs)", floor=12)
     ctx.rule("R01.j", "String/Bytes with a regex accept a well-typed value iff the regex matches it (empty strings included) and None iff allow_None (abstract interpretation of the full validator, re.match as abstract input)", floor=2)
+    ctx.rule("R01.k", "class creation re-validates an inherited-constraints default whenever the type changed or a slot was overridden, for every default other than None "
+                      "(the guard of the _validate call in __param_inheritance, evaluated on None / falsy / truthy defaults x trigger flags)", floor=1)
     ctx.rule("R01.g", "every _validate_value override below Tuple checks isinstance(val, tuple) (itself or via super) before iterating the value", floor=3)
     ctx.rule("R01.m", "setter model: Parameter.__set__ interpreted abstractly on every combination (576) of route x constant/readonly x validation outcome x identity x reference mode x watchers x batching agrees with the specification of this property (see checks/setter_model.py)", floor=1)
     ctx.not_decided += ["semantics of re.match / isinstance / `in` (trusted library operations: only that they are consulted is checked)",
@@ -361,6 +363,8 @@ def run(ctx):
     from checks.c01_types import rule_h, rule_regex
     rule_h(ctx)
     rule_regex(ctx)
+    from checks.shared import inherited_default_revalidated
+    inherited_default_revalidated(ctx, "R01.k")
 
     # model-level rule, run last (see DESIGN §10)
     from checks import setter_model
